@@ -25,6 +25,8 @@ def run(chk):
         dict(flavour="rel", scen="det", runs=(800, 20000), opts={"cb": 1, "maxMovable": 14}),
         # the row-reordering pass (off in the stock efforts) always on, over two or three rows
         dict(flavour="rel", scen="det", runs=(800, 20000), opts={"cb": 1, "maxMovable": 14, "reorderFocus": 1, "multiRow": 0}),
+        # the polarities the circuit stores are those the caller gave (histories of the public mutators, abstract data type in PlaceAPI.tla)
+        dict(flavour="asan-ubsan", exe="record_proto", scen="api", runs=(200, 5000), opts={}),
     ]
     # the code's polarity table / opposite-row function against the generator-based algebra (exhaustive)
     replay_cases(chk, "OrientCases", "OrientCases", "polarity x row orientation table and orientation algebra")
